@@ -434,6 +434,58 @@ func corrADTS(r *hx.Rng, n int, thorough bool) {
 	}
 }
 
+// ---------------------------------------------------------------- bits.Writer / bits.Reader vs the bit-list reading
+
+func corrBits(r *hx.Rng, n int) {
+	widths := func() int {
+		switch r.Intn(4) {
+		case 0:
+			return r.Pick(1, 2, 3, 4, 5, 11, 12, 13, 16, 24)
+		case 1:
+			return r.Range(0, 8)
+		default:
+			return r.Range(0, 32)
+		}
+	}
+	for i := 0; i < n; i++ {
+		k := r.Range(0, 12)
+		var buf bytes.Buffer
+		w := bits.NewWriter(&buf)
+		ops := make([]string, 0, k)
+		for j := 0; j < k; j++ {
+			wd := widths()
+			v := r.U64()
+			if r.Bool() {
+				v &= 1<<uint(wd) - 1
+			}
+			w.Write(uint(v), wd)
+			ops = append(ops, hx.HexU(v)+":"+strconv.Itoa(wd))
+		}
+		fl := r.Intn(3) > 0
+		if fl {
+			w.Flush()
+		}
+		o := "-"
+		if len(ops) > 0 {
+			o = strings.Join(ops, ";")
+		}
+		fmt.Fprintf(out, "BW\t%s\t%s\t%d\t%s\n", nextID("bw"), o, b2i(fl), hx.Hex(buf.Bytes()))
+	}
+	for i := 0; i < n; i++ {
+		data := r.Bytes(r.Range(0, 10), nil)
+		rd := bits.NewReader(bytes.NewReader(data))
+		k := r.Range(1, 14)
+		ws := make([]int, k)
+		obs := make([]string, k)
+		for j := 0; j < k; j++ {
+			ws[j] = widths()
+			v := rd.Read(ws[j])
+			obs[j] = hx.HexU(uint64(v)) + "/" + strconv.Itoa(b2i(rd.AccError() != nil))
+		}
+		fmt.Fprintf(out, "BR\t%s\t%s\t%s\t%s\n", nextID("br"), hx.Hex(data), hx.Csv(ws), strings.Join(obs, ","))
+	}
+}
+
 // ---------------------------------------------------------------- sample entry (correspondence)
 
 // buildEntry runs SetAACDescriptor on a fresh track and encodes the mp4a entry it added
@@ -877,6 +929,9 @@ func main() {
 		}
 		if *part == "all" || *part == "entry" {
 			corrEntry(hx.NewRng(*seed*4+3), *n, thorough)
+		}
+		if *part == "all" || *part == "bits" {
+			corrBits(hx.NewRng(*seed*4+4), *n*10)
 		}
 	case "search":
 		if *part == "all" || *part == "asc" {
